@@ -209,6 +209,9 @@ func runC16(r *fw.Run) {
 				site, what := ast.Node(nil), ""
 				if cl, ok := n.(*ast.CompositeLit); ok && fw.TypeIs(info.TypeOf(cl), "caching", "Item") {
 					site, what = cl, "construction of a caching.Item"
+					// key/value pairing: Key is responseCacheKeys[k] and Value comes from values[k] of the same loop
+					pairOK, pairWhy := itemPairsKeyWithValue(fi, cl)
+					r.Check(pairOK, "C16-R2", "responseCacheCollect/key-value-pairing", p.Pos(cl.Pos()), "each caching.Item pairs responseCacheKeys[k] with the k-th entity of the response", pairWhy)
 					// TTL provenance
 					for _, el := range cl.Elts {
 						if kv, ok := el.(*ast.KeyValueExpr); ok {
@@ -379,13 +382,61 @@ func runC16(r *fw.Run) {
 		}
 		d := fw.NewDeriver(fi)
 		in := fw.NewInterp(fi)
+		type snap struct{ hdr, ftr, items bool }
+		offsets := map[types.Object]snap{}
+		isTmpl := func(c *ast.CallExpr, part string) bool {
+			if !fw.CallIs(info, c, "resolve", "InputTemplate.RenderAndCollectUndefinedVariables") && !fw.CallIs(info, c, "resolve", "InputTemplate.Render") {
+				return false
+			}
+			sel, ok := ast.Unparen(c.Fun).(*ast.SelectorExpr)
+			if !ok {
+				return false
+			}
+			v, _ := fw.Field(info, sel.X)
+			return v != nil && v.Name() == part
+		}
 		in.H = fw.Hooks{Node: func(n ast.Node, st *fw.State) {
+			if as, ok := n.(*ast.AssignStmt); ok && len(as.Lhs) == 1 && len(as.Rhs) == 1 {
+				if c, ok := ast.Unparen(as.Rhs[0]).(*ast.CallExpr); ok {
+					if fn := fw.Callee(info, c); fn != nil && fn.Name() == "Len" && len(c.Args) == 0 {
+						if o := fw.RootObj(info, as.Lhs[0]); o != nil {
+							offsets[o] = snap{hdr: st.Must("hdr"), ftr: st.May("ftr"), items: st.May("items")}
+						}
+					}
+				}
+			}
 			c, ok := n.(*ast.CallExpr)
 			if !ok {
 				return
 			}
+			if isTmpl(c, "Header") {
+				st.Set("hdr")
+			}
+			if isTmpl(c, "Footer") {
+				st.Set("ftr")
+			}
+			if fn := fw.Callee(info, c); fn != nil && (fn.Name() == "WriteTo" || fn.Name() == "Write" || fn.Name() == "WriteByte" || fn.Name() == "WriteString") && st.Must("hdr") {
+				st.Set("items")
+			}
 			if fw.CallIs(info, c, "resolve", "SetInputUndefinedVariables") {
 				st.Set("rewritten")
+			}
+			if in.Final() && fw.CallIs(info, c, "resolve", "responseCacheSelectionHash") && len(c.Args) == 2 {
+				hOK, fOK := false, false
+				if se, ok := ast.Unparen(c.Args[0]).(*ast.SliceExpr); ok && se.High != nil && se.Low == nil {
+					if s, ok := offsets[fw.RootObj(info, se.High)]; ok && s.hdr && !s.ftr && !s.items {
+						hOK = true
+					}
+				}
+				if se, ok := ast.Unparen(c.Args[1]).(*ast.SliceExpr); ok && se.Low != nil && se.High == nil {
+					if s, ok := offsets[fw.RootObj(info, se.Low)]; ok && s.hdr && !s.ftr {
+						fOK = true
+					}
+				}
+				r.Check(hOK, "C16-R5", fi.Name()+"/header-offset", p.Pos(c.Pos()), "the header slice ends at an offset taken after the header was rendered and before any entity / the footer was written",
+					"the first argument of responseCacheSelectionHash is not rendered[:H] with H = buffer length right after the header: entity bytes leak into (or header bytes drop out of) the selection hash")
+				r.Check(fOK, "C16-R5", fi.Name()+"/footer-offset", p.Pos(c.Pos()), "the footer slice starts at an offset taken before the footer was rendered",
+					"the second argument of responseCacheSelectionHash is not rendered[F:] with F = buffer length before the footer is rendered: the footer (selection set and argument values) is not part of the key, so requests that differ only there share cache entries")
 			}
 			if !in.Final() {
 				return
@@ -504,6 +555,71 @@ func runC16(r *fw.Run) {
 			"field "+f+" (read by caching.TTL) is assigned in arms ["+strings.Join(sortStrings(got), ",")+"] instead of only \""+want+"\": the directive is silently ignored (zero value = 'absent') or another directive toggles it, widening what is stored")
 	}
 	_ = nArms
+}
+
+// itemPairsKeyWithValue: the composite literal sits in `for k, v := range X` (or `for k := range X`),
+// its Key is preparedFetch.responseCacheKeys[k] and its Value derives from v (or X[k]).
+func itemPairsKeyWithValue(fi *fw.FuncInfo, cl *ast.CompositeLit) (bool, string) {
+	info := fi.Info()
+	var loop *ast.RangeStmt
+	ast.Inspect(fi.Decl.Body, func(n ast.Node) bool {
+		if rs, ok := n.(*ast.RangeStmt); ok && rs.Body.Pos() <= cl.Pos() && cl.End() <= rs.Body.End() {
+			loop = rs // innermost wins (pre-order: later assignments are deeper)
+		}
+		return true
+	})
+	if loop == nil || loop.Key == nil {
+		return false, "the item is not built inside a loop with an index over the response's entities"
+	}
+	kid, ok := loop.Key.(*ast.Ident)
+	if !ok || kid.Name == "_" {
+		return false, "the entity loop has no index variable: keys cannot be paired with entities by position"
+	}
+	kobj := info.Defs[kid]
+	if kobj == nil {
+		kobj = info.Uses[kid]
+	}
+	var keyExpr, valExpr ast.Expr
+	for _, el := range cl.Elts {
+		if kv, ok := el.(*ast.KeyValueExpr); ok {
+			if k, ok := kv.Key.(*ast.Ident); ok {
+				switch k.Name {
+				case "Key":
+					keyExpr = kv.Value
+				case "Value":
+					valExpr = kv.Value
+				}
+			}
+		}
+	}
+	ix, ok := ast.Unparen(keyExpr).(*ast.IndexExpr)
+	if !ok || !fw.IsFieldSel(info, ix.X, "resolve", "preparedFetch", "responseCacheKeys") {
+		return false, "Item.Key is not an element of prepared.responseCacheKeys"
+	}
+	iid, ok := ast.Unparen(ix.Index).(*ast.Ident)
+	if !ok || info.Uses[iid] != kobj {
+		return false, "Item.Key is responseCacheKeys[" + types.ExprString(ix.Index) + "], not indexed by the loop index over the entities: after a skipped (null) entity every later entity is stored under another representation's key"
+	}
+	d := fw.NewDeriver(fi)
+	var vobj types.Object
+	if vid, ok := loop.Value.(*ast.Ident); ok && vid.Name != "_" {
+		vobj = info.Defs[vid]
+	}
+	fromLoop := d.Derives(valExpr, func(e ast.Expr) bool {
+		if id, ok := e.(*ast.Ident); ok && vobj != nil && info.Uses[id] == vobj {
+			return true
+		}
+		if x, ok := e.(*ast.IndexExpr); ok {
+			if id, ok := ast.Unparen(x.Index).(*ast.Ident); ok && info.Uses[id] == kobj && fw.ExprKey(info, x.X) == fw.ExprKey(info, loop.X) {
+				return true
+			}
+		}
+		return false
+	})
+	if !fromLoop {
+		return false, "Item.Value does not come from the loop's current entity"
+	}
+	return true, ""
 }
 
 func shortWhat(s string) string {
